@@ -115,23 +115,54 @@ func TestVerifReplay(t *testing.T) {
 '''
 
 
+_BINS = {}
+
+
+def native_build(pkgdir, names):
+    """compiles the replay test binary of a package once per check run."""
+    key = (pkgdir, tuple(sorted(set(names))))
+    if key in _BINS:
+        return _BINS[key]
+    tmp = tempfile.mkdtemp(prefix="verif.replay.")
+    _TMPDIRS.append(tmp)
+    hm = "".join('\t"%s": %s,\n' % (n, n) for n in sorted(set(names)))
+    ov = overlay_for(pkgdir, tmp, REPLAY_TEST.replace("HARNESSMAP", hm))
+    binp = os.path.join(tmp, "replay.test")
+    p = subprocess.run(["go", "test", "-c", "-vet=off", "-overlay", ov, "-o", binp, "./" + pkgdir], cwd=REPO, env=GOENV,
+                       stdout=subprocess.PIPE, stderr=subprocess.STDOUT, text=True, errors="replace")
+    if p.returncode != 0 or not os.path.exists(binp):
+        _BINS[key] = (None, "[build failed]\n" + p.stdout[-3000:])
+    else:
+        _BINS[key] = (binp, "")
+    return _BINS[key]
+
+
+_TMPDIRS = []
+
+
+def native_cleanup():
+    for d in _TMPDIRS:
+        shutil.rmtree(d, ignore_errors=True)
+    _TMPDIRS.clear()
+    _BINS.clear()
+
+
 def native_run(pkgdir, names, items, timeout):
     """items: list of (harness, cexpath). Returns (returncode, output)."""
-    tmp = tempfile.mkdtemp(prefix="verif.replay.")
+    binp, err = native_build(pkgdir, names)
+    if binp is None:
+        return 1, err
+    env = dict(GOENV, VERIF_REPLAY=",".join("%s=%s" % it for it in items))
+    cmd = [binp, "-test.run", "^TestVerifReplay$", "-test.v", "-test.count=1", "-test.timeout", "%ds" % timeout]
     try:
-        hm = "".join('\t"%s": %s,\n' % (n, n) for n in sorted(set(names)))
-        ov = overlay_for(pkgdir, tmp, REPLAY_TEST.replace("HARNESSMAP", hm))
-        env = dict(GOENV, VERIF_REPLAY=",".join("%s=%s" % it for it in items))
-        cmd = ["go", "test", "-v", "-vet=off", "-count=1", "-overlay", ov, "-run", "^TestVerifReplay$",
-               "-timeout", "%ds" % timeout, "./" + pkgdir]
-        try:
-            p = subprocess.run(cmd, cwd=REPO, env=env, stdout=subprocess.PIPE, stderr=subprocess.STDOUT,
-                               timeout=timeout + 240, text=True, errors="replace")
-            return p.returncode, p.stdout
-        except subprocess.TimeoutExpired as e:
-            return 124, (e.stdout or "") + "\nVERIF-REPLAY-TIMEOUT"
-    finally:
-        shutil.rmtree(tmp, ignore_errors=True)
+        p = subprocess.run(cmd, cwd=os.path.join(REPO, pkgdir), env=env, stdout=subprocess.PIPE, stderr=subprocess.STDOUT,
+                           timeout=timeout + 60, text=True, errors="replace")
+        return p.returncode, p.stdout
+    except subprocess.TimeoutExpired as e:
+        o = e.stdout or ""
+        if isinstance(o, bytes):
+            o = o.decode(errors="replace")
+        return 124, o + "\nVERIF-REPLAY-TIMEOUT"
 
 
 def classify(rc, out):
@@ -275,7 +306,7 @@ def main():
                                "discharged": h["discharged"], "path_ends": h["path_ends"], "covers": h.get("covers"),
                                "wall_s": round(h["wall_s"], 2), "notes": h.get("notes")} for h in hs],
                 "functions_encoded": funcs,
-                "bounds": cfg.get("bounds", {}).get(tier, cfg.get("bounds", {})),
+                "bounds": cfg["bounds"].get(tier, cfg["bounds"]) if isinstance(cfg.get("bounds"), dict) else cfg.get("bounds", ""),
                 "queries": res.get("solver_queries", 0), "unsat": res.get("solver_unsat", 0), "sat": res.get("solver_sat", 0),
                 "unknown": res.get("solver_unknown", 0), "solver_s": round(res.get("solver_s", 0), 2),
                 "solver": "z3 4.8.12 (z3 -in, push/pop)",
@@ -294,6 +325,7 @@ def main():
         json.dump(ev, open(evidence_path, "w"), indent=1)
     finally:
         shutil.rmtree(tmp, ignore_errors=True)
+        native_cleanup()
     for l in known_lines:
         print(l)
     summary = "property=%s tier=%s harnesses=%d paths=%d obligations=%d discharged=%d queries=%d wall=%.1fs" % (
